@@ -16,8 +16,9 @@ Section Safety.
     intro Hf. unfold init_state. split; [simpl; apply map_length|]. split; [|split]; simpl.
     - intros y Hy [Hc _]. rewrite getc_init in Hc by lia. discriminate.
     - intros i t Hi. apply nth_error_In in Hi. destruct (Hf t Hi) as [inst [via [tgt [-> Ht]]]].
-      split; [|intros _; unfold depth; simpl; lia].
-      split; [simpl; lia|]. split; [simpl; auto|]. split; [simpl; discriminate|simpl; exact I].
+      split; [|intros _; unfold depth; destruct inst; simpl; lia].
+      split; [simpl; lia|]. split; [simpl; auto|]. split; [simpl; discriminate|].
+      destruct inst; simpl; [|exact I]. split; [auto|split; [auto|intro; lia]].
     - intros y Hy. left. unfold untouched. apply getc_init; auto.
   Qed.
 
@@ -211,6 +212,7 @@ Section Safety.
       destruct (t_tgt t - t_cur t) as [|d0] eqn:Ed; [lia|]. simpl. eauto.
     - (* Reread *)
       inversion H; subst; clear H. left. split; [|eauto]. apply ret_inprog. ip Hp. intuition discriminate.
+    - exfalso. try rewrite Hp in Hf. ip Hp. destruct Hf as [Ec _]. intuition (try discriminate; lia).
     - exfalso. try rewrite Hp in Hf. ip Hp. destruct Hf as [Ec _]. intuition (try discriminate; lia).
     - exfalso. try rewrite Hp in Hf. ip Hp. destruct Hf as [Ec _]. intuition (try discriminate; lia).
     - exfalso. try rewrite Hp in Hf. ip Hp. destruct Hf as [Ec _]. intuition (try discriminate; lia).
